@@ -105,16 +105,22 @@ fn nth_permutation(mut idx: u64, n: usize) -> Vec<usize> {
 
 /// run one arrival sequence of fragment ids; check after every delivery
 fn run_sequence(shape: &Shape, frags: &[(usize, u32)], seq: &[usize]) -> Result<String, String> {
+  let pieces: Vec<(usize, u32, u32)> = frags.iter().map(|(si, f)| (*si, *f, 1)).collect();
+  run_pieces(shape, &pieces, seq)
+}
+
+/// The same for DATAFRAG submessages that carry `n >= 1` consecutive fragments: (sample, first fragment, n).
+fn run_pieces(shape: &Shape, frags: &[(usize, u32, u32)], seq: &[usize]) -> Result<String, String> {
   let mut sim = SimReader::new(RCfg { reliable: true, history: 0, nwriters: 2, frag_size: FRAG_B });
   let nfr: Vec<u32> = shape.samples.iter().map(|(w, sn, k, pad)| sim.nfrags(*w, *sn, *k, *pad)).collect();
   let mut got: Vec<BTreeSet<u32>> = vec![BTreeSet::new(); shape.samples.len()];
   let mut appeared_at: BTreeMap<usize, usize> = BTreeMap::new();
   for (step, fi) in seq.iter().enumerate() {
-    let (si, f) = frags[*fi];
+    let (si, f, n) = frags[*fi];
     let (w, sn, k, pad) = shape.samples[si];
-    let b = sim.frag_bytes(w, sn, k, pad, f);
+    let b = if n == 1 { sim.frag_bytes(w, sn, k, pad, f) } else { sim.frag_run_bytes(w, sn, k, pad, f, n) };
     sim.inject(&b);
-    got[si].insert(f);
+    got[si].extend(f..f + n);
     let all = sim.cache_all();
     for (sj, (w2, sn2, k2, pad2)) in shape.samples.iter().enumerate() {
       let complete = got[sj].len() as u32 == nfr[sj];
@@ -256,6 +262,83 @@ pub fn run(tier: &str) -> i32 {
     }
     rep.push_sample(json!({"layer": "b", "shape": shape.name, "fragments": frags, "arrival_sequences": total}));
   }
+  // ---------------- layer (c): DATAFRAG submessages carrying several fragments
+  // every way of cutting each sample's fragments into consecutive runs (one DATAFRAG per run), every arrival
+  // order of the runs, alone and with one run duplicated at each position
+  let run_shapes: Vec<Shape> = if thorough {
+    vec![
+      Shape { name: "runs of 5 (short last)", samples: vec![(0, 1, 1, 17)] },
+      Shape { name: "runs of 4 (full last)", samples: vec![(0, 1, 1, 16)] },
+      Shape { name: "runs of 4 | 2", samples: vec![(0, 1, 1, 16), (1, 1, 2, 0)] },
+      Shape { name: "runs of 3 + 3 (one writer)", samples: vec![(0, 1, 1, 1), (0, 2, 1, 8)] },
+    ]
+  } else {
+    vec![Shape { name: "runs of 5 (short last)", samples: vec![(0, 1, 1, 17)] }, Shape { name: "runs of 3 | 2", samples: vec![(0, 1, 1, 8), (1, 1, 2, 0)] }]
+  };
+  let mut c_n = 0u64;
+  for shape in &run_shapes {
+    let probe = SimReader::new(RCfg { reliable: true, history: 0, nwriters: 2, frag_size: FRAG_B });
+    let nfr: Vec<u32> = shape.samples.iter().map(|(w, sn, k, pad)| probe.nfrags(*w, *sn, *k, *pad)).collect();
+    drop(probe);
+    // compositions of each sample: bit i of the mask set = a cut after fragment i+1
+    let mut cuts: Vec<Vec<Vec<(usize, u32, u32)>>> = vec![];
+    for (si, n) in nfr.iter().enumerate() {
+      let mut per = vec![];
+      for mask in 0u32..(1 << (n - 1)) {
+        let mut pieces = vec![];
+        let mut start = 1u32;
+        for f in 1..=*n {
+          if f == *n || mask & (1 << (f - 1)) != 0 {
+            pieces.push((si, start, f - start + 1));
+            start = f + 1;
+          }
+        }
+        per.push(pieces);
+      }
+      cuts.push(per);
+    }
+    let mut combos: Vec<Vec<(usize, u32, u32)>> = vec![vec![]];
+    for per in &cuts {
+      combos = combos.iter().flat_map(|c| per.iter().map(move |p| [c.clone(), p.clone()].concat())).collect();
+    }
+    // the all-singletons cutting is layer (b)'s business
+    combos.retain(|c| c.iter().any(|p| p.2 > 1));
+    let mut shape_total = 0u64;
+    for pieces in &combos {
+      let m = pieces.len();
+      let nperm: u64 = (1..=m as u64).product();
+      let variants = 1 + m * (m + 1);
+      let total = nperm * variants as u64;
+      shape_total += total;
+      let res = par_map(total as usize, 16, |i| {
+        let perm = nth_permutation(i as u64 / variants as u64, m);
+        let v = i % variants;
+        let mut seq = perm;
+        if v > 0 {
+          seq.insert((v - 1) % (m + 1), (v - 1) / (m + 1));
+        }
+        (run_pieces(shape, pieces, &seq), seq)
+      });
+      for (r, seq) in res {
+        match r {
+          Ok(c) => {
+            if classes.len() < 6000 {
+              classes.insert(format!("c: {} {} pieces {c}", shape.name, m));
+            }
+          }
+          Err(e) => {
+            let key = if e.contains("incomplete set") { "C05:runs:incomplete-produced-sample" } else if e.contains("times") || e.contains("twice") { "C05:runs:delivered-twice" } else if e.contains("missing although") { "C05:runs:complete-not-delivered" } else { "C05:runs:bytes" };
+            let order: Vec<(usize, u32, u32)> = seq.iter().map(|i| pieces[*i]).collect();
+            rep.violation(key, json!({"layer": "c", "shape": shape.name, "samples": format!("{:?}", shape.samples), "arrival_order_sample_first_count": order}), &format!("shape {}: DATAFRAG submessages (sample index, first fragment, fragments in submessage) arriving as {order:?}: {e}", shape.name));
+          }
+        }
+      }
+    }
+    c_n += shape_total;
+    rep.push_sample(json!({"layer": "c", "shape": shape.name, "cuttings": combos.len(), "arrival_sequences": shape_total}));
+  }
+  rep.set("multi_fragment_submessage_sequences", json!(c_n));
+  let b_n = b_n + c_n;
   rep.set("evaluations", json!(a_n + b_n));
   rep.set("states", json!(a_n + b_n));
   rep.set("transitions", json!(a_n + b_n));
@@ -264,7 +347,7 @@ pub fn run(tier: &str) -> i32 {
   rep.set("layer_b_arrival_sequences", json!(b_n));
   rep.set("distinct_nontrivial", json!(classes.len()));
   rep.set("exhaustive", json!(true));
-  rep.set("rule", json!("(a) every payload length 0..4F+5 x fragment size F (quick: F=1024 only around the multiples) x {data, dispose-by-key}: real Writer (data_max_size_serialized=F) -> datagrams -> real Reader; (b) per shape every permutation of all fragments of all samples, alone and with each fragment duplicated at each position; distinct_nontrivial = distinct (fragment count, last-full, kind) classes in (a) plus distinct completion-step patterns in (b)"));
+  rep.set("rule", json!("(a) every payload length 0..4F+5 x fragment size F (quick: F=1024 only around the multiples) x {data, dispose-by-key}: real Writer (data_max_size_serialized=F) -> datagrams -> real Reader; (b) per shape every permutation of all fragments of all samples, alone and with each fragment duplicated at each position; (c) DATAFRAG submessages carrying several fragments (fragmentsInSubmessage >= 2, as other vendors send them): every cutting of each sample's fragments into consecutive runs, every arrival order of the runs, alone and with one run duplicated at each position; distinct_nontrivial = distinct (fragment count, last-full, kind) classes in (a) plus distinct completion-step patterns in (b)"));
   rep.assumptions = vec![
     "Fragment sizes below 4 are excluded (the 4-byte encapsulation header would straddle fragments; no writer of this implementation can be configured that way except through the pub test field used here)".into(),
     "Layer (b) builds DATAFRAGs with MessageBuilder::data_frag_msg, the constructor the Writer uses (layer (a) covers the Writer's own splitting)".into(),
